@@ -32,13 +32,16 @@ Qed.
 Lemma load_save s : Forall (fun n => has_state n = true) s -> load (save s) = surviving s.
 Proof. intros H. unfold load, surviving. rewrite (save_spec s H). reflexivity. Qed.
 
-Lemma scrub_param_ext l1 l2 p : (forall id, l1 id = l2 id) -> scrub_param l1 p = scrub_param l2 p.
+Lemma scrub_param_at_ext l1 l2 p : (forall id, l1 id = l2 id) -> forall d, scrub_param_at l1 d p = scrub_param_at l2 d p.
 Proof.
-  intros Hl. induction p using param_ind'; cbn [scrub_param]; try reflexivity.
+  intros Hl. induction p using param_ind'; intros d; cbn [scrub_param_at]; try reflexivity.
   - rewrite Hl. reflexivity.
   - rewrite IHp. reflexivity.
   - f_equal. induction H as [|x r Hx Hr IHr]; [reflexivity|]. cbn. rewrite Hx, IHr. reflexivity.
 Qed.
+
+Lemma scrub_param_ext l1 l2 p : (forall id, l1 id = l2 id) -> scrub_param l1 p = scrub_param l2 p.
+Proof. intros Hl. apply scrub_param_at_ext. exact Hl. Qed.
 
 Lemma scrub_inst_ext l1 l2 i : (forall id, l1 id = l2 id) -> scrub_inst l1 i = scrub_inst l2 i.
 Proof.
@@ -46,13 +49,17 @@ Proof.
   apply map_ext. intros p. apply scrub_param_ext. exact Hl.
 Qed.
 
-Lemma scrub_param_idem live p : scrub_param live (scrub_param live p) = scrub_param live p.
+Lemma scrub_param_at_idem live p : forall d, scrub_param_at live d (scrub_param_at live d p) = scrub_param_at live d p.
 Proof.
-  induction p using param_ind'; cbn [scrub_param]; try reflexivity.
-  - destruct (live n) eqn:E; cbn [scrub_param]; [rewrite E|]; reflexivity.
+  induction p using param_ind'; intros d; cbn [scrub_param_at]; try reflexivity.
+  - destruct (live n) eqn:E; cbn [scrub_param_at]; [rewrite E; reflexivity|].
+    destruct d as [|[|d']]; cbn [scrub_param_at]; [reflexivity|reflexivity|rewrite E; reflexivity].
   - rewrite IHp. reflexivity.
   - f_equal. rewrite map_map. induction H as [|x r Hx Hr IHr]; [reflexivity|]. cbn. rewrite Hx, IHr. reflexivity.
 Qed.
+
+Lemma scrub_param_idem live p : scrub_param live (scrub_param live p) = scrub_param live p.
+Proof. apply scrub_param_at_idem. Qed.
 
 Lemma scrub_inst_idem live i : scrub_inst live (scrub_inst live i) = scrub_inst live i.
 Proof.
